@@ -25,6 +25,13 @@ Definition seqr (a b : res) : res :=
   | o => o
   end.
 
+(* a writer applied to every element of a slice in order (the body of a Go for loop) *)
+Fixpoint seq_all {A} (f : A -> res) (l : list A) : res :=
+  match l with
+  | [] => Ok []
+  | x :: l' => seqr (f x) (seq_all f l')
+  end.
+
 (* ---- primitive appenders (frame.go:1939-2072) ------------------------------------------------ *)
 Definition app_short (n : Z) : bytes := [byte_of (Z.shiftr n 8); byte_of n].
 Definition app_int (n : Z) : bytes :=
@@ -200,14 +207,14 @@ Definition write_batch_stmt (proto : Z) (b : bstmt) : res :=
              then 0 :: write_long_string (bs_stmt b)
              else 1 :: write_short_bytes (bs_id b))
             ++ app_short (wrap 16 (len (bs_values b)))))
-       (fold_left (fun acc v => seqr acc (write_batch_value proto v)) (bs_values b) (Ok [])).
+       (seq_all (write_batch_value proto) (bs_values b)).
 
 Definition batch_named (proto : Z) (stmts : list bstmt) : bool :=
   (proto >? K.protoVersion2) && existsb (fun b => existsb (fun v => nonempty (qv_name v)) (bs_values b)) stmts.
 
 Definition write_batch_body (proto now typ : Z) (stmts : list bstmt) (cl serial : Z) (dts : bool) (dtsv : Z) : res :=
   seqr (Ok (byte_of typ :: app_short (wrap 16 (len stmts))))
-  (seqr (fold_left (fun acc b => seqr acc (write_batch_stmt proto b)) stmts (Ok []))
+  (seqr (seq_all (write_batch_stmt proto) stmts)
         (Ok (write_consistency cl
              ++ (if proto >? K.protoVersion2 then
                    let flags := or_if (batch_named proto stmts) 0 K.flagWithNameValues in
@@ -272,3 +279,47 @@ Definition build_frame (comp : option (bytes -> option bytes)) (version : Z) (tr
 
 (* Conn.executeBatch (conn.go:1542-1544): protocol 1 has no BATCH; refused before any frame is built *)
 Definition conn_batch_refused (version : Z) : bool := version =? K.protoVersion1.
+
+(* ---- conn.go: how the request structs are filled ------------------------------------------------------------
+   executeQuery (conn.go, "params := queryParams{...}" up to the two frame literals), executeBatch
+   ("req := &writeBatchFrame{...}" and the per-entry loop), UseKeyspace, prepareStatement.  Marshalling of
+   the bound values (marshalQueryValue) belongs to C02/C12: here a bound value arrives as the queryValues
+   it was marshalled into. *)
+Record query_in := mkqi {
+  qi_cons : Z; qi_serial : Z; qi_default_ts : bool; qi_default_ts_value : Z;
+  qi_page_state : bytes; qi_page_size : Z; qi_payload : payload_t }.
+
+Definition conn_params (version : Z) (current_ks : bytes) (q : query_in) (values : list qvalue) (skip_meta : bool) : qparams :=
+  mkqp (qi_cons q) skip_meta values
+       (if 0 <? qi_page_size q then qi_page_size q else 0)
+       (if nonempty (qi_page_state q) then qi_page_state q else [])
+       (qi_serial q) (qi_default_ts q) (qi_default_ts_value q)
+       (if version >? K.protoVersion4 then current_ks else []).
+
+(* prepared = Some (id, marshalled values, DisableSkipMetadata || disableSkipMetadata) when the statement is
+   executed through a prepared statement, None when it is sent as a QUERY *)
+Definition conn_execute_query (version : Z) (current_ks : bytes) (q : query_in) (stmt : bytes)
+           (prepared : option (bytes * list qvalue * bool)) : request :=
+  match prepared with
+  | Some (id, values, disable_skip) =>
+      RExecute id (conn_params version current_ks q values (negb disable_skip)) (qi_payload q)
+  | None => RQuery stmt (conn_params version current_ks q [] false) (qi_payload q)
+  end.
+
+(* a batch entry: the statement text, and Some (id, values) when it has arguments (then it is prepared) *)
+Definition conn_batch_stmt (e : bytes * option (bytes * list qvalue)) : bstmt :=
+  match snd e with
+  | Some (id, values) => mkbs id [] values
+  | None => mkbs [] (fst e) []
+  end.
+
+Definition conn_execute_batch (version typ : Z) (entries : list (bytes * option (bytes * list qvalue)))
+           (cl serial : Z) (dts : bool) (dtsv : Z) (payload : payload_t) : option request :=
+  if conn_batch_refused version then None
+  else Some (RBatch typ (map conn_batch_stmt entries) cl serial dts dtsv payload).
+
+Definition conn_use_keyspace (session_cons : Z) (ks : bytes) : request :=
+  RQuery ([85; 83; 69; 32; 34] ++ ks ++ [34]) (mkqp session_cons false [] 0 [] 0 false 0 []) [].
+
+Definition conn_prepare (version : Z) (current_ks stmt : bytes) : request :=
+  RPrepare stmt (if version >? K.protoVersion4 then current_ks else []) [].
